@@ -287,11 +287,15 @@ func (c *RemoteClient) Ready(ctx context.Context, nextMessageID uint64) error {
 	logger.InfoWithFields(ctx, []logger.Field{
 		logger.Uint64("next_message_id", nextMessageID),
 	}, "Sending ready message")
+	// Set the expected message id before sending because the first message can be received before
+	// the send returns. Setting it after would drop that message or overwrite the id after it.
+	previousMessageID := c.nextMessageID.Load().(uint64)
+	c.nextMessageID.Store(nextMessageID)
 	if err := c.sendDirect(ctx, &Message{Payload: m}); err != nil {
+		c.nextMessageID.Store(previousMessageID)
 		return err
 	}
 
-	c.nextMessageID.Store(nextMessageID)
 	c.handshakeComplete.Store(true)
 	logger.Info(ctx, "Marked handshake complete")
 	handshakeCompleteChannel := c.handshakeCompleteChannel.Load()
